@@ -7,7 +7,8 @@ from ..report import V
 
 PID = 'C07'
 T = alphabets.T
-SHAPE_PAIRS = [((1, 1), (1, 3)), ((1, 3), (1, 3)), ((2, 2), (2, 2)), ((2, 3), (2, 2)), ((2, 3), (3, 2)), ((3, 2), (3, 2))]
+SHAPE_PAIRS = [((1, 1), (1, 3)), ((1, 3), (1, 3)), ((2, 2), (2, 2)), ((2, 3), (2, 2)), ((2, 3), (3, 2)), ((3, 2), (3, 2)),
+               ((3, 1), (1, 3)), ((1, 1), (1, 1)), ((3, 1), (3, 1))]          # degenerate shapes: N x 1, 1 x N, 1 x 1
 SHAPE_PAIRS_THOROUGH = SHAPE_PAIRS + [((3, 3), (3, 3)), ((3, 3), (2, 2)), ((2, 4), (4, 2))]
 
 
